@@ -10,7 +10,7 @@ package cert
 // Accepted quorum certificates: a quorum of participants, the certified block is known and
 // carries the view the certificate claims, and every participant's signature is valid over
 // exactly that block's bytes.
-//@ func (*Authority).VerifyQuorumCert property C02,C10,C20
+//@ func (*Authority).VerifyQuorumCert property C02,C10,C20,C03,C07,C08,C09
 //@   requires awf(c) && hotstuff.genesisBlock != nil
 //@   ensures [quorum] result == nil && !isGenesisHash(qc.hash) ==> qc.signature != nil && hotstuff.setlen(hotstuff.parts(qc.signature)) >= quorum(c)
 //@   ensures [content] result == nil && !isGenesisHash(qc.hash) ==> has(c.blockchain.blocks, qc.hash) && (forall id hotstuff.ID :: hotstuff.setmem(hotstuff.parts(qc.signature), id) ==> crypto.sigvalid(c.Base, qc.signature, id, hotstuff.blockcontent(c.blockchain.blocks[qc.hash])))
@@ -25,7 +25,7 @@ package cert
 
 // Accepted timeout certificates: a quorum of participants, each with a valid signature over
 // exactly the timed-out view the certificate claims.
-//@ func (*Authority).VerifyTimeoutCert property C02,C10,C20
+//@ func (*Authority).VerifyTimeoutCert property C02,C10,C20,C03,C07,C08,C09
 //@   requires awf(c)
 //@   ensures [quorum] result == nil && tc.view != 0 ==> tc.signature != nil && hotstuff.setlen(hotstuff.parts(tc.signature)) >= quorum(c)
 //@   ensures [content] result == nil && tc.view != 0 ==> (forall id hotstuff.ID :: hotstuff.setmem(hotstuff.parts(tc.signature), id) ==> crypto.sigvalid(c.Base, tc.signature, id, hotstuff.viewcontent(tc.view)))
@@ -34,7 +34,7 @@ package cert
 //@   modifies alloc
 
 //@ pure func pcAccepted(c *Authority, pc hotstuff.PartialCert) bool
-//@ func (*Authority).VerifyPartialCert property C02,C10,C20,C09
+//@ func (*Authority).VerifyPartialCert property C02,C10,C20,C09,C03,C07,C08
 //@   requires awf(c)
 //@   ghost ensures result == nil ==> pcAccepted(c, cert)
 //@   ensures [content] result == nil ==> cert.signature != nil && has(c.blockchain.blocks, cert.blockHash) && (forall id hotstuff.ID :: hotstuff.setmem(hotstuff.parts(cert.signature), id) ==> crypto.sigvalid(c.Base, cert.signature, id, hotstuff.blockcontent(c.blockchain.blocks[cert.blockHash])))
@@ -46,7 +46,7 @@ package cert
 // the stored block it names, which has the view the QC claims.
 //@ pred qcok(c *Authority, qc hotstuff.QuorumCert) = (isGenesisHash(qc.hash) && qc.view == hotstuff.genesisBlock.view) || (!isGenesisHash(qc.hash) && qc.signature != nil && hotstuff.setlen(hotstuff.parts(qc.signature)) >= quorum(c) && has(c.blockchain.blocks, qc.hash) && c.blockchain.blocks[qc.hash].view == qc.view && (forall id hotstuff.ID :: hotstuff.setmem(hotstuff.parts(qc.signature), id) ==> crypto.sigvalid(c.Base, qc.signature, id, hotstuff.blockcontent(c.blockchain.blocks[qc.hash]))))
 
-//@ func (*Authority).findHighestValidQC property C02,C10,C20
+//@ func (*Authority).findHighestValidQC property C02,C10,C20,C03,C07,C08,C09
 //@   requires awf(c) && hotstuff.genesisBlock != nil
 //@   ensures [valid] err == nil ==> qcok(c, highQC)
 //@   ensures [highest] err == nil ==> (forall i int :: {old(qcs[i])} 0 <= i && i < len(qcs) && old(qcs[i]).view > highQC.view ==> qcRejected(c, old(qcs[i])))
@@ -61,7 +61,7 @@ package cert
 // Accepted aggregate certificates: a quorum of participants, each with a valid signature
 // over its own timeout message (its id, the certificate's view, the QC it attested), and
 // the reported high QC is itself a valid QC.
-//@ func (*Authority).VerifyAggregateQC property C02,C10,C20
+//@ func (*Authority).VerifyAggregateQC property C02,C10,C20,C03,C07,C08,C09
 //@   requires awf(c) && hotstuff.genesisBlock != nil
 //@   ensures [quorum] err == nil ==> aggQC.sig != nil && hotstuff.setlen(hotstuff.parts(aggQC.sig)) >= quorum(c)
 //@   ensures [content] err == nil ==> (forall id hotstuff.ID :: hotstuff.setmem(hotstuff.parts(aggQC.sig), id) ==> has(aggQC.qcs, id) && crypto.sigvalid(c.Base, aggQC.sig, id, hotstuff.tmcontent(id, aggQC.view, true, aggQC.qcs[id])))
@@ -81,7 +81,7 @@ package cert
 
 // The certificate a proposal is judged by: its block's QC must be a valid QC (and, with
 // aggregate QCs, the aggregate certificate must verify and its high QC is the block's QC).
-//@ func (*Authority).VerifyAnyQC property C02,C10,C20
+//@ func (*Authority).VerifyAnyQC property C02,C10,C20,C03,C07,C08,C09
 //@   requires awf(c) && hotstuff.genesisBlock != nil && proposal != nil && proposal.Block != nil
 //@   ensures [qc-valid] result == nil ==> qcok(c, proposal.Block.cert)
 //@   ensures [inv] blockchain.binv(c.blockchain) && blockchain.bmaps(c.blockchain)
@@ -110,7 +110,7 @@ package cert
 // ---- assembling certificates: the certificate names exactly the block / view it was asked
 // for, and the signature it carries is what Base.Combine made of exactly the given partial
 // signatures, all of them, in order (asserted where Combine is called).
-//@ func (*Authority).CreateQuorumCert property C09,C02
+//@ func (*Authority).CreateQuorumCert property C09,C02,C03
 //@   requires c.Base != nil && block != nil && hotstuff.genesisBlock != nil
 //@   ghost at call Combine :: assert len(sigs) == len(signatures) && (forall k int :: {sigs[k]} 0 <= k && k < len(signatures) ==> sigs[k] == signatures[k].signature)
 //@   ensures [genesis] err == nil && block.hash == hotstuff.genesisBlock.hash ==> cert.view == 0 && cert.signature == nil && cert.hash == block.hash
@@ -118,7 +118,7 @@ package cert
 //@   loop 0 invariant [all-in-order] len(sigs) == rangeindex + 1 && (cap(sigs) == 0 || fresh(sigs)) && (forall k int :: {sigs[k]} 0 <= k && k <= rangeindex ==> sigs[k] == signatures[k].signature)
 //@   modifies alloc
 
-//@ func (*Authority).CreateTimeoutCert property C08,C02
+//@ func (*Authority).CreateTimeoutCert property C08,C02,C07
 //@   requires c.Base != nil
 //@   ghost at call Combine :: assert len(sigs) == len(timeouts) && (forall k int :: {sigs[k]} 0 <= k && k < len(timeouts) ==> sigs[k] == timeouts[k].ViewSignature)
 //@   ensures [view-zero] err == nil && view == 0 ==> cert.view == 0 && cert.signature == nil
@@ -129,7 +129,7 @@ package cert
 // The aggregate certificate carries, for every timeout with a QC, that QC under the sender's
 // id (senders pairwise distinct, as the collector guarantees: C08 P2), nothing else, and the
 // requested view.
-//@ func (*Authority).CreateAggregateQC property C08,C02
+//@ func (*Authority).CreateAggregateQC property C08,C02,C07
 //@   requires c.Base != nil
 //@   requires [distinct-senders] forall i int, j int :: {timeouts[i].ID, timeouts[j].ID} 0 <= i && i < j && j < len(timeouts) ==> timeouts[i].ID != timeouts[j].ID
 //@   ensures [names-the-view] err == nil ==> aggQC.view == view && aggQC.sig != nil && aggQC.qcs != nil
@@ -166,7 +166,7 @@ package cert
 // leaves open) is an assumption; what is verified against the code (ghost trace `ws` of the
 // builder writes): the first write is the 4-byte count of claimed signers, every claimed
 // signer's 4-byte id is written, and nothing else is.
-//@ func writeSigners property C11,C02
+//@ func writeSigners property C11,C02,C03,C07,C08,C09,C10
 //@   opt trusted-posts chunk
 //@   requires key != nil && signature != nil
 //@   ghost at call Builder.Write :: emit ws(content(op1), len(op1))
@@ -184,19 +184,19 @@ package cert
 //@   ensures [only-removes] forall k string :: {has(cache.entries, k)} has(cache.entries, k) ==> old(has(cache.entries, k))
 //@   modifies cache.entries[*], cache.accessOrder
 
-//@ func (*Cache).check property C11
+//@ func (*Cache).check property C11,C02,C03,C07,C08,C09,C10
 //@   requires cache.entries != nil
 //@   ensures [hit-only-if-present] result ==> has(cache.entries, key)
 //@   ensures [entries-unchanged] forall k string :: {has(cache.entries, k)} has(cache.entries, k) == old(has(cache.entries, k))
 //@   modifies cache.accessOrder
 
-//@ func (*Cache).insert property C11,C03,C10
+//@ func (*Cache).insert property C11,C03,C10,C02,C07,C08,C09
 //@   requires cinv(cache)
 //@   requires [only-verified-keys] kvalid(cache.impl, key)
 //@   ensures [inv] cinv(cache)
 //@   modifies cache.entries[*], cache.accessOrder, alloc
 
-//@ func (*Cache).Verify property C11,C03,C10,C02
+//@ func (*Cache).Verify property C11,C03,C10,C02,C07,C08,C09
 //@   requires cinv(cache) && signature != nil
 //@   ensures [sound] result == nil ==> vok(cache.impl, signature, content(message))
 //@   ensures [inv] cinv(cache)
@@ -224,7 +224,7 @@ package cert
 // accepted. Not proved: that the key names the verdict (the digest value is outside the
 // model; the explicit assumption at the call of insert says so).
 //@ pure func bhdr(id hotstuff.ID, n int) int = abytes(aput(aput(0, 0, 4, id), 4, 8, n))
-//@ func (*Cache).BatchVerify property C11,C02
+//@ func (*Cache).BatchVerify property C11,C02,C03,C07,C08,C09,C10
 //@   requires cinv(cache) && signature != nil && (forall id hotstuff.ID :: {has(batch, id)} has(batch, id) ==> len(batch[id]) <= 281474976710656)
 //@   ghost at call Hash.Write :: emit hw(content(op1), len(op1))
 //@   ghost at call PutUint32 :: emit hid(op2)
